@@ -214,6 +214,9 @@ func (g *BadQ) Write(h *rtp.Header, p []byte, _ interceptor.Attributes) (int, er
 	return len(p), nil
 }
 
+// Start (bad): a method that can run again starts another consumer on the same queue.
+func (g *BadQ) Start() { go g.run() }
+
 func (g *BadQ) run() {
 	for {
 		select {
